@@ -187,6 +187,9 @@ def rand_spec_desc(rng, seq, kinds=None):
     if k == "change_min":
         return dict(kind="change_min", minimum=rng.randint(1, 4), location=None if rng.random() < 0.5 else problems.rand_loc(rng, n, 2, strands=(1, 0)))
     if k in ("change_obj",):
+        if rng.random() < 0.3:
+            idx = sorted(rng.sample(range(n), rng.randint(1, min(n, 6))))
+            return dict(kind="change_obj", location=None, indices=idx, amount_percent=rng.choice([None, None, 50]), boost=1)
         return dict(kind="change_obj", location=None if rng.random() < 0.5 else problems.rand_loc(rng, n, 2, strands=(1, 0)),
                     amount_percent=rng.choice([None, None, 50]), boost=1)
     if k == "cai":
